@@ -190,7 +190,12 @@ def _build_one(u):
     return exe
 
 
-def ensure_built(units, quiet=False):
+build_failures = []  # (unit name, log tail) of units that did not compile in a tolerant build
+
+
+def ensure_built(units, quiet=False, tolerate=False):
+    """tolerate: a unit that does not compile is left out of the result (recorded in build_failures) instead of raising,
+    as long as at least one unit builds - a change of the library may break one harness configuration only"""
     units = list({u.name + u.key(): u for u in units}.values())
     todo = [u for u in units if not u.exe().exists()]
     if todo:
@@ -200,12 +205,27 @@ def ensure_built(units, quiet=False):
         t0 = time.time()
         if not quiet:
             print('[build] %d unit(s) against include hash %s ...' % (len(todo), repo_hash()[:12]), flush=True)
+        failed = []
+
+        def one(u):
+            try:
+                _build_one(u)
+            except BuildError as e:
+                if not tolerate:
+                    raise
+                failed.append(e)
         with cf.ThreadPoolExecutor(max_workers=NCPU) as ex:
-            list(ex.map(_build_one, todo))
+            list(ex.map(one, todo))
         if not quiet:
             print('[build] done in %.1fs' % (time.time() - t0), flush=True)
         prune_builds()
-    return {u.name: u.exe() for u in units}
+        if failed:
+            if len(failed) == len(units):
+                raise failed[0]
+            for e in failed:
+                build_failures.append((e.name, e.log[-1500:]))
+                print('NOTE unit %s does not compile against this tree; it is left out (inconclusive)' % e.name, flush=True)
+    return {u.name: u.exe() for u in units if u.exe().exists()}
 
 
 def derive_seed(base, *parts):
